@@ -16,6 +16,21 @@ from unit_scaling.formats import FPFormat
 REAL_RANDINT = torch.randint
 
 
+class default_dtype:
+    """torch.set_default_dtype(...) for the duration of one library call (the ambient default must not matter)"""
+
+    def __init__(self, name):
+        self.dt = getattr(torch, name) if name else None
+
+    def __enter__(self):
+        self.old = torch.get_default_dtype()
+        if self.dt is not None:
+            torch.set_default_dtype(self.dt)
+
+    def __exit__(self, *a):
+        torch.set_default_dtype(self.old)
+
+
 class Draws:
     """substitute for torch.randint: hands out a harness-chosen tensor and records the request"""
 
@@ -90,7 +105,9 @@ def enum_cases(ctx):
             alts = ["float64"] + (["bfloat16"] if M <= 7 else []) + (["float16"] if E <= 4 else [])
             pick = (i // max(1, ctx.nshards)) % 4
             dtype = "float32" if pick < 2 else alts[(i + pick) % len(alts)]
-            yield dict(E=E, M=M, srbits=sr, n=n, seed=ctx.seed, dtype=dtype)
+            # the process-wide default dtype in force during the call (torch.set_default_dtype): no effect allowed
+            dd = [None, None, None, "float64", "bfloat16", "float16"][(i * 7 + ctx.seed) % 6]
+            yield dict(E=E, M=M, srbits=sr, n=n, seed=ctx.seed, dtype=dtype, default_dtype=dd)
 
 
 def run(case) -> CaseResult:
@@ -120,11 +137,13 @@ def run(case) -> CaseResult:
     keep = X.clone()
     d = Draws(lambda low, high, size: torch.arange(low, high).expand(size) if size[-1] == high - low else REAL_RANDINT(low, high, size))
     try:
-        with patch("torch.randint", d):
+        with patch("torch.randint", d), default_dtype(case.get("default_dtype")):
             Qt = fmt.quantise(X)
     except Exception as e:  # noqa: BLE001
         res.fail(exc_bucket("C14.raises", e), f"E{E}M{M} srbits={sr}: {type(e).__name__}: {e}")
         return res
+    if case.get("default_dtype"):
+        res.labels.append("default-dtype=" + case["default_dtype"])
     tag = f"sr={'all' if sr == 0 else 'partial'}" + ("" if dtn == "float32" else f":{dtn}")
     if len(d.calls) != 1 or d.calls[0] != (0, N, tuple(X.shape)):
         res.fail(f"C14.draw-request:{tag}", f"E{E}M{M} srbits={eff}: torch.randint requested {d.calls[:2]}, expected one call (0, {N}, {tuple(X.shape)})")
